@@ -5,7 +5,7 @@ _str_to_gemini registry of /repo  ->  coq/Gen/Forwarding.v (syntax of coq/Model/
 Per class with an estimator (BaseEstimator) or GEMINI (_GEMINI) ancestry: constructor parameters with
 their literal defaults, the statements of __init__ in source order (`self.x = expr`,
 `super().__init__(..)` / `Parent.__init__(self, ..)` with positional and keyword arguments), the
-names of all methods defined in the class body, the straight-line data flow of `score` (assignments,
+names of all methods defined in the class body, the straight-line data flow of `score` and `fit_predict` (assignments,
 `if v is None: v = e`, attribute reads / getattr, calls), and the body of get_gemini (either
 `return Cls(k=self.attr | literal, ..)` or the None / str / instance resolution of
 DiscriminativeModel).  From gemini/_utils.py: AVAILABLE_GEMINIS and the if-chain of _str_to_gemini.
@@ -199,13 +199,13 @@ def tr_get_gemini(where, fn, class_names):
 
 
 def tr_score(where, fn):
-    """score(self, X, y=None): straight-line data flow of the local variables (fail-closed)."""
+    """score / fit_predict (self, X, y=None): straight-line data flow of the local variables (fail-closed)."""
     if fn.decorator_list:
-        die(where, fn, "decorated score")
+        die(where, fn, "decorated method")
     a = fn.args
     if a.posonlyargs or a.kwonlyargs or a.vararg or a.kwarg or [x.arg for x in a.args] != ["self", "X", "y"] \
             or len(a.defaults) != 1 or not (isinstance(a.defaults[0], ast.Constant) and a.defaults[0].value is None):
-        die(where, fn, "unexpected signature of score")
+        die(where, fn, "unexpected signature (self, X, y=None expected)")
     local = {"X", "y"}
 
     def ex(node):
@@ -237,7 +237,9 @@ def tr_score(where, fn):
                 if isinstance(f.value, ast.Name) and f.value.id == "self":
                     return f"(MSelfCall {q(f.attr)} {args})"
                 return f"(MMeth {ex(f.value)} {q(f.attr)} {args})"
-        die(where, node, "unsupported expression in score")
+        if isinstance(node, ast.Attribute) and isinstance(node.ctx, ast.Load):
+            return f"(MField {ex(node.value)} {q(node.attr)})"
+        die(where, node, "unsupported expression in method body")
 
     out = []
     for st in strip_doc(fn.body):
@@ -327,7 +329,7 @@ def ancestors_of(name, parent_of):
 
 def tr_class(rel, c, parent, parent_of, class_names):
     where = f"{rel}:{c.name}"
-    methods, init, gg, score = [], "None", "None", "None"
+    methods, init, gg, score, fp = [], "None", "None", "None", "None"
     for st in c.body:
         if isinstance(st, ast.FunctionDef):
             if st.name in methods:
@@ -339,6 +341,8 @@ def tr_class(rel, c, parent, parent_of, class_names):
                 gg = "(Some (" + tr_get_gemini(where + ".get_gemini", st, class_names) + "))"
             elif st.name == "score":
                 score = "(Some " + tr_score(where + ".score", st) + ")"
+            elif st.name == "fit_predict":
+                fp = "(Some " + tr_score(where + ".fit_predict", st) + ")"
         elif isinstance(st, ast.Expr) and isinstance(st.value, ast.Constant) and isinstance(st.value.value, str):
             pass                                   # docstring
         elif isinstance(st, (ast.Assign, ast.AnnAssign)):
@@ -352,7 +356,7 @@ def tr_class(rel, c, parent, parent_of, class_names):
             die(where, st, "unsupported statement in class body")
     par = "None" if parent is None else f"(Some {q(parent)})"
     return (f"  {{| c_name := {q(c.name)}; c_parent := {par};\n      c_init := {init};\n"
-            f"      c_methods := {lst([q(m) for m in methods])};\n      c_get_gemini := {gg};\n      c_score := {score} |}}")
+            f"      c_methods := {lst([q(m) for m in methods])};\n      c_get_gemini := {gg};\n      c_score := {score};\n      c_fit_predict := {fp} |}}")
 
 
 def tr_registry(class_names):
